@@ -12,7 +12,9 @@ configurations - quick: the default set, the empty set and adhoccounting+adhocco
 cfg arm at least once; thorough: all 12 distinct sets - and an obligation is reported here iff it is refuted under some
 configuration while it is discharged, or does not exist, under the default one: the specification tables are the same
 for every configuration, so every cfg-sibling of a function is compared with one common oracle, which implies
-sibling-to-sibling agreement on the canonical state - C12.A-cfg), C14.P-fix in every bin configuration, C12.A-toml
+sibling-to-sibling agreement on the canonical state - C12.A-cfg), S.R-rec directly (the ad-hoc, memoised and naive counting procedures and the
+two support procedures are alternative implementations selected by the configuration: a defect in any of them makes configurations disagree even
+when the defective code is compiled everywhere), C14.P-fix in every bin configuration, C12.A-toml
 (each bin feature enables the adf_bdd feature of the same name, so bin's own cfg(feature) agrees with the library it
 links; the fact files of every bin configuration confirm the library's active feature set). The documented exception
 (memoised model counts with adhoccounting but without adhoccountmodels) is an explicit, reasoned whitelist entry of
@@ -73,6 +75,15 @@ def check(ctx):
                        found="%s: expected %s, found %s" % (o.kind, o.expected, o.found), config=cfg)
         ctx.ob(rule, "%s:suite" % name, True, expected="compared", found="%d obligation keys over %d configurations" % (len(by_key), len(lib_cfgs)), nontrivial=False)
     ctx.floor(rule, "obligation keys compared", total, 500)
+    # cfg-alternative implementations of one specification (ad-hoc counting in Bdd::node / memoised / naive counting; var_deps table / recursive
+    # support): a defect in any alternative makes the configurations that use it disagree with those that do not, even if the defective code is
+    # compiled - but not executed - everywhere, so these obligations count directly, not only differentially
+    from rules import counts
+    for cfg in lib_cfgs:
+        ctx.cfg = cfg.name
+        lib = ctx.load(cfg)
+        counts.R_rec_counts(ctx, lib)
+        counts.R_rec_support(ctx, lib)
     # bin configurations: C14.P-fix everywhere
     from rules import C14
     bins = facts.BIN_ALL if ctx.tier == "thorough" else [facts.Config("bin"), facts.Config("bin", []), facts.Config("bin", ["variablelist"])]
